@@ -152,6 +152,16 @@ class Repo:
             if isinstance(fi.node, ast.FunctionDef) and N.canonical_dict_loops(fi.node):
                 self.normalised.setdefault("dict loops", []).append(q)
 
+    def _resolve_roles_of(self, q, fi):
+        from .roles import resolve_function
+        from .role_table import R
+        if q in R:
+            un = resolve_function(fi.node, R[q])
+            if un:
+                self.unresolved[q] = un
+            else:
+                self.unresolved.pop(q, None)
+
     def _normalise_post(self):
         """sa/normalize.py pass 3 (after role resolution, so canonical spellings are known), then roles once more."""
         from . import normalize as N
@@ -161,7 +171,7 @@ class Repo:
         for q, fi in self.functions.items():
             if isinstance(fi.node, ast.FunctionDef):
                 try:
-                    names = N.inline_new_locals(q, fi.node)
+                    names = N.inline_new_locals(q, fi.node, on_change=(lambda f=fi, q=q: self._resolve_roles_of(q, f)))
                 except AnalysisError:
                     names = []
                 if names:
